@@ -210,6 +210,25 @@ _amend("C16", "text", "Decides four structural clauses", "Decides five structura
 _amend("C19", "text", "(R19.1-R19.10,", "(R19.1-R19.12,")
 _amend("C20", "text", "(R20.1-R20.7", "(R20.1-R20.8")
 
+# sixth pass
+_amend("C03", "text", "(R03.1-R03.7, DESIGN.md §4 C03):", "(R03.1-R03.7 incl. R03.5c, DESIGN.md §4 C03):")
+_amend("C04", "text", "(R04.1-R04.8, DESIGN.md §4 C04):", "(R04.1-R04.10, DESIGN.md §4 C04):")
+_amend("C04", "text", "Decides eight structural clauses only", "Decides ten structural clauses only")
+_amend("C04", "text", "a remembered deletion index is not reused after the list changed (= R10.5). ", "a remembered deletion index is not reused after the list changed (= R10.5); Token.Equal — the licence to drop a repeated shorthand component — holds only for equal bytes; the separator before an attribute selector flag depends on the token alone and covers exactly i I s S. ")
+_amend("C05", "text", "(R05.1-R05.14,", "(R05.1-R05.15,")
+_amend("C07", "text", "(R07.1-R07.11, DESIGN.md §4 C07):", "(R07.1-R07.13, DESIGN.md §4 C07):")
+_amend("C07", "text", "(R07.4-R07.10 = R08.3-R08.9)", "(R07.4-R07.10 = R08.3-R08.9, R07.13 = R08.10; R07.12: the saved lexeme is a copy and belongs to the current token)")
+_amend("C08", "text", "(R08.1-R08.9,", "(R08.1-R08.10,")
+_amend("C08", "text", "Decides nine shape clauses only", "Decides ten shape clauses only")
+_amend("C09", "text", "(R09.1, R09.3-R09.8, DESIGN.md §4 C09):", "(R09.1, R09.3-R09.11, DESIGN.md §4 C09):")
+_amend("C09", "text", "Decides seven printer disciplines", "Decides ten printer disciplines")
+_amend("C11", "text", "(R11.1-R11.5, DESIGN.md §4 C11)", "(R11.1-R11.7, DESIGN.md §4 C11; R11.6/7 = R09.8/9: a data URI rewritten inside url() is still one URL token)")
+_amend("C16", "text", "(R16.1-R16.5,", "(R16.1-R16.7,")
+_amend("C16", "text", "Decides five structural clauses", "Decides seven structural clauses")
+_amend("C19", "text", "(R19.1-R19.12,", "(R19.1-R19.14,")
+_amend("C20", "text", "(R20.1-R20.8", "(R20.1-R20.9")
+_amend("C20", "tech", "provenance classification of mutated paths", "provenance classification of mutated paths, typestate witness rule for the backup cleanup (variables assigned only after the backup rename)")
+
 
 NOT_APPLICABLE = {
  "C18": "DataURI/Mediatype correctness is about decoded byte values and length comparisons between encodings; no structural clause separates a right "
